@@ -112,6 +112,30 @@ def judge(ctx, cs, text, label, detail_extra=None):
         ctx.violation("names", "stub-declares-a-name-the-cstruct-object-does-not-provide", dict(det, bogus=bogus))
         return
     ctx.event("names_checked", len(want))
+    # aliases must point at something that exists and is the very type the cstruct object resolves the name to
+    for n, node in declared.items():
+        if not (isinstance(node, ast.AnnAssign) and ast.unparse(node.annotation).endswith("TypeAlias")
+                and node.value is not None):
+            continue
+        tgt = node.value
+        tname = None
+        if isinstance(tgt, ast.Name):
+            tname = tgt.id
+            if tname not in declared:
+                ctx.violation("names", "alias-points-at-a-name-the-stub-does-not-declare",
+                              dict(det, alias=n, target=ast.unparse(tgt)))
+                return
+        elif isinstance(tgt, ast.Attribute):
+            tname = tgt.attr
+        if tname is not None and n in cs.typedefs:
+            try:
+                same = cs.resolve(n) is cs.resolve(tname) or cs.resolve(n).__name__ == tname
+            except Exception:  # noqa: BLE001
+                same = False
+            if not same:
+                ctx.violation("names", "alias-declared-with-another-target", dict(det, alias=n, target=ast.unparse(tgt)))
+                return
+        ctx.event("alias_targets_checked")
     # field annotations of structures
     from dissect.cstruct import types
 
@@ -159,7 +183,7 @@ def special_forms(ctx):
         ("keyword-enum-member", "enum KE : uint8 { None, True };", None),
         ("string-const", '#define NAME "hello"\n#define BYTES b"\\x01\\x02"\n#define FL 1.5\nstruct T { uint8 a; };', None),
         ("typedef-chain", "typedef uint16 W1;\ntypedef W1 W2;\ntypedef struct _S { W2 a; W1 b[2]; } S, *PS_unused_name;"
-                          if False else "typedef uint16 W1;\ntypedef W1 W2;\ntypedef struct _S { W2 a; W1 b[2]; } S, S2;", None),
+                          if False else "typedef uint16 W1;\ntypedef W1 W2;\ntypedef uint16 W3;\ntypedef uint32 H1;\ntypedef uint32 H2;\ntypedef struct _S { W2 a; W1 b[2]; H2 c; } S, S2;\ntypedef S S3;", None),
         ("nested-anon-array", "struct T { struct { uint8 x; struct { uint16 y; } inner[2]; } outer[3]; union { uint8 u1; "
                               "uint16 u2; }; };", None),
         ("string-alias", "struct T { uint8 a; };", lambda cs: cs.add_type("alias_of_uint8", "uint8")),
